@@ -20,7 +20,7 @@ def queries(tier):
 
     def q(name, defs, nch=nch, store=store, maxw=4, **kw):
         d = dict(defs, NCH=nch, STORE=store, MAXW=maxw)
-        ud = dict(UD, KIT_MAX_bytes=max(store + 1, maxw * nch + 2))
+        ud = dict(UD, KIT_MAX_bytes=max(store + 1, 2 * maxw * nch + 2))
         us = dict(US, **{'memcpy.1': 8 * nch + 3, 'memcpy.0': 4, 'memset.1': 8 * nch + 3, 'memset.0': 4, 'memmove.2': 8 * nch + 3, 'memmove.3': 8 * nch + 3})
         qs.append(Query(name=name, harness='C12_string.c', units=UNITS, unit_defs=ud, defs=d, unwind=8, unwindset=us,
                         remove_bodies=EXC, cap=cap, backends=['cadical', 'minisat', 'kissat'], **kw))
